@@ -9,15 +9,24 @@ package stack
 
 import (
 	"fmt"
+	"io"
 	"net"
 	"net/http"
+	"os"
+	"os/exec"
+	"strconv"
 	"sync"
 	"sync/atomic"
+	"syscall"
 	"time"
 
+	"github.com/docker/docker/pkg/reexec"
 	"github.com/openebs/jiva/replica"
 	"github.com/openebs/jiva/replica/rest"
 	"github.com/openebs/jiva/rpc"
+	"github.com/openebs/jiva/sync/agent"
+	"github.com/openebs/sparse-tools/cli/ssync"
+	"github.com/sirupsen/logrus"
 )
 
 // Endpoint is one replica address: control on ip:9502, data on ip:9503.
@@ -27,6 +36,7 @@ type Endpoint struct {
 	mu     sync.Mutex
 	conns  map[net.Conn]bool
 	dataLn *net.TCPListener
+	agent  *exec.Cmd
 }
 
 type holder struct {
@@ -126,3 +136,70 @@ func (e *Endpoint) WaitIdle(d time.Duration) error {
 	}
 	return fmt.Errorf("data connections still open on %s", e.IP)
 }
+
+// ---- the sync agent (sync/agent) and ssync, run as children of the harness binary the way
+// main.go / app/replica.go run them: re-exec of the own binary, cwd = replica directory ----------
+
+func agentMain() {
+	// argv: verif-agent LISTEN START END ; cwd is the replica directory
+	start, _ := strconv.Atoi(os.Args[2])
+	end, _ := strconv.Atoi(os.Args[3])
+	if os.Getenv("VERIF_AGENT_LOG") == "" {
+		logrus.SetOutput(io.Discard)
+	}
+	srv := agent.NewServer(start, end)
+	if err := http.ListenAndServe(os.Args[1], agent.NewRouter(srv)); err != nil {
+		fmt.Fprintln(os.Stderr, "verif-agent:", err)
+		os.Exit(1)
+	}
+}
+
+// Init must be the first thing main does: it turns the process into ssync or the sync agent when it
+// was re-executed as one of them (and then does not return).
+func Init() {
+	reexec.Register("ssync", ssync.Main)
+	reexec.Register("verif-agent", agentMain)
+	if reexec.Init() {
+		os.Exit(0)
+	}
+}
+
+// StartAgent (re)starts the endpoint's sync agent on ip:9504 with dir as its working directory.
+func (e *Endpoint) StartAgent(dir string, portStart int) error {
+	e.StopAgent()
+	cmd := reexec.Command("verif-agent", e.IP+":9504", strconv.Itoa(portStart), strconv.Itoa(portStart+7))
+	cmd.Dir = dir
+	cmd.SysProcAttr = &syscall.SysProcAttr{Pdeathsig: syscall.SIGKILL}
+	cmd.Stdout = io.Discard
+	cmd.Stderr = io.Discard
+	if lf := os.Getenv("VERIF_AGENT_LOG"); lf != "" {
+		if f, err := os.OpenFile(lf, os.O_CREATE|os.O_APPEND|os.O_WRONLY, 0644); err == nil {
+			cmd.Stdout, cmd.Stderr = f, f
+		}
+	}
+	if err := cmd.Start(); err != nil {
+		return err
+	}
+	e.agent = cmd
+	for i := 0; i < 400; i++ {
+		c, err := net.DialTimeout("tcp", e.IP+":9504", 100*time.Millisecond)
+		if err == nil {
+			c.Close()
+			return nil
+		}
+		time.Sleep(10 * time.Millisecond)
+	}
+	return fmt.Errorf("sync agent on %s did not come up", e.IP)
+}
+
+// StopAgent kills the endpoint's sync agent (and with it its ssync children).
+func (e *Endpoint) StopAgent() {
+	if e.agent != nil && e.agent.Process != nil {
+		e.agent.Process.Kill()
+		e.agent.Wait()
+	}
+	e.agent = nil
+}
+
+// PortBase returns the start of this process's private range for ssync receivers.
+func PortBase() int { return 12000 + (os.Getpid()%1000)*20 }
